@@ -235,7 +235,9 @@ func sampleValue(r *core.Rng, t *yang.RType) (good string, bad string) {
 	if t == nil {
 		return "x", ""
 	}
-	cands := []string{"1", "5", "0", "7", "10", "100", "2.5", "abc", "ab", "a", "x", "true", "false", "e0", "e1", "-1", "50", "20", "9", "3", "abcdefgh", ""}
+	cands := []string{"1", "5", "0", "7", "10", "100", "2.5", "abc", "ab", "a", "x", "true", "false", "e0", "e1", "-1", "50", "20", "9", "3", "abcdefgh", "",
+		// other spellings of numbers: decimal with sign or leading zeros is YANG, a base prefix or an underscore is not
+		"007", "08", "+5", "0100", "0x7", "0b11", "0o17", "1_0", "1e1"}
 	var goods, bads []string
 	for _, c := range cands {
 		if t.Accepts(c) {
@@ -397,7 +399,9 @@ func (p *c17) Run(tier string, seed int64, idx int) core.CaseResult {
 			} else if ep != wantA && ep != wantB {
 				res.Fail("C17/error-does-not-identify-first-offending-element/"+strings.ReplaceAll(why, " ", "-"), in,
 					fmt.Sprintf("reference: first offending token index %d (%s); error-path %q; error: %v", bad, why, ep, err))
-			} else if bad < len(path) && !strings.Contains(fmt.Sprintf("%v %s", err, jsonStr(err)), path[bad]) && path[bad] != "" {
+			} else if all := fmt.Sprintf("%v %s", err, jsonStr(err)); bad < len(path) && path[bad] != "" && !strings.Contains(all, path[bad]) &&
+				!strings.Contains(all, strings.TrimPrefix(pathutil.Pathstr([]string{path[bad]}), "/")) {
+				// (the token as it is, or as an element of the percent-encoded error path)
 				res.Fail("C17/error-does-not-name-offending-element", in, fmt.Sprintf("token %q not mentioned: %v", path[bad], err))
 			}
 		}
